@@ -9,6 +9,13 @@ Emitted constants (all prefixed uuid_ to stay clear of other properties' tables)
   uuid_case_assign   : list str         ... assigned
   uuid_case_uuid_idx / uuid_case_name_idx : N   positions inside case.arguments
   uuid_event_flow_rendered : list str   campaign event types whose flow reference is rendered
+  uuid_row_hooks : list (str * (N * (str * (bool * bool))))
+        flow-sheet row type -> (shape, (type of the action / router test it creates, (records, carries))):
+        shape 0 no reference | 1 group action | 2 enter-flow action | 3 router whose cases are group tests;
+        records = a truthy obj_id is handed to record_group_uuid / record_flow_uuid of the FlowParser's container;
+        carries = the obj_id is put on the Group / FlowReference object the row creates
+  uuid_block_shared : bool   does a template pulled in with insert_as_block record into the container of the
+        flow that inserts it (true) or into a container of its own that is thrown away (false)
 """
 import contextlib
 import io
@@ -167,4 +174,160 @@ def tables_uuid(out, notes):
                  f"{len(rec_rows)} action types and {len(rec_types)}/{len(asg_types)} group test types)")
 
 
-GENERATORS = [tables_uuid]
+# ---------------------------------------------------------------------------------------------------
+# sheet level: what FlowParser does with the obj_id of a row, probed on one-row sheets
+
+ROW_TYPES = ["send_message", "save_value", "add_to_group", "remove_from_group", "save_flow_result", "add_contact_urn",
+             "set_contact_language", "set_contact_name", "set_contact_status", "set_contact_timezone",
+             "wait_for_response", "split_by_value", "split_by_group", "split_random", "start_new_flow"]
+REF_ROW_SHAPES = {"add_to_group": 1, "remove_from_group": 1, "start_new_flow": 2, "split_by_group": 3}
+
+
+def _dataset(headers, rows):
+    import tablib
+    t = tablib.Dataset()
+    t.headers = headers
+    for r in rows:
+        t.append([r.get(h, "") for h in headers])
+    return t
+
+
+def _spy_container():
+    from rpft.rapidpro.models.containers import RapidProContainer
+
+    class Spy(RapidProContainer):
+        def __init__(self):
+            super().__init__()
+            self.rec = []
+
+        def record_group_uuid(self, name, uuid):
+            self.rec.append(("G", name, uuid))
+            super().record_group_uuid(name, uuid)
+
+        def record_flow_uuid(self, name, uuid):
+            self.rec.append(("F", name, uuid))
+            super().record_flow_uuid(name, uuid)
+    return Spy()
+
+
+def _probe_row(ty, obj_id):
+    """-> (records, occurrences) of a sheet whose first row is of type ty with main argument PROBE-N"""
+    import logging
+    from rpft.parsers.creation.flowparser import FlowParser
+    headers = ["row_id", "type", "from", "condition", "message_text", "save_name", "obj_id"]
+    rows = [{"row_id": "1", "type": ty, "from": "start", "message_text": "PROBE-N", "save_name": "probe", "obj_id": obj_id},
+            {"row_id": "2", "type": "send_message", "from": "1", "condition": "PROBE-N", "message_text": "x"}]
+    spy = _spy_container()
+    logging.disable(logging.CRITICAL)
+    try:
+        flow = FlowParser(spy, "probe", _dataset(headers, rows)).parse(add_to_container=False)
+        doc = flow.render()
+    finally:
+        logging.disable(logging.NOTSET)
+    occ = []
+    for n in doc["nodes"]:
+        for a in n.get("actions", []):
+            for g in a.get("groups", []) if isinstance(a.get("groups"), list) else []:
+                occ.append((1, a["type"], g.get("name"), g.get("uuid")))
+            if isinstance(a.get("flow"), dict):
+                occ.append((2, a["type"], a["flow"].get("name"), a["flow"].get("uuid")))
+        for k in (n.get("router") or {}).get("cases", []):
+            args = k.get("arguments") or []
+            if "PROBE-N" in args and len(args) == 2:
+                other = [x for x in args if x != "PROBE-N"]
+                occ.append((3, k["type"], "PROBE-N", other[0] if other else None))
+    return spy.rec, occ
+
+
+def tables_uuid_sheet(out, notes):
+    from rpft.rapidpro.models.routers import RouterCase  # noqa: F401  (import check)
+    rows = []
+    for ty in ROW_TYPES:
+        try:
+            rec, occ = _probe_row(ty, "PROBE-U")
+            rec0, occ0 = _probe_row(ty, "")
+        except BaseException as e:
+            if ty in REF_ROW_SHAPES:
+                raise Refuse(f"a one-row sheet of type {ty!r} does not parse: {type(e).__name__}: {e}")
+            rows.append((ty, 0, "", False, False))
+            continue
+        refs = [o for o in occ if o[2] == "PROBE-N" and (o[0] != 3 or o[1] not in ("has_any_word",))]
+        # a conditional edge from a plain row creates a has_any_word router case on PROBE-N: not a reference
+        refs = [o for o in refs if not (o[0] == 3 and o[1] == "has_any_word")]
+        shapes = sorted(set(o[0] for o in refs))
+        if len(shapes) > 1:
+            raise Refuse(f"row type {ty!r} creates references of several shapes: {refs!r}")
+        shape = shapes[0] if shapes else 0
+        if ty in REF_ROW_SHAPES and shape != REF_ROW_SHAPES[ty]:
+            raise Refuse(f"row type {ty!r}: expected a reference of shape {REF_ROW_SHAPES[ty]}, found {refs!r}")
+        if rec0:
+            raise Refuse(f"row type {ty!r} records {rec0!r} for a row WITHOUT obj_id (the model records truthy obj_ids only)")
+        if any(o[3] for o in occ0 if o[2] == "PROBE-N" and o[0] in (1, 2)):
+            raise Refuse(f"row type {ty!r} without obj_id creates a reference that already has a uuid: {occ0!r}")
+        if shape == 0:
+            if rec:
+                raise Refuse(f"row type {ty!r} creates no reference but records {rec!r}")
+            rows.append((ty, 0, "", False, False))
+            continue
+        kind = "F" if shape == 2 else "G"
+        if rec not in ([], [(kind, "PROBE-N", "PROBE-U")]):
+            raise Refuse(f"row type {ty!r} records something unexpected: {rec!r}")
+        atypes = sorted(set(o[1] for o in refs))
+        if len(atypes) != 1:
+            raise Refuse(f"row type {ty!r} creates references in several action/test types: {atypes!r}")
+        uu = set(o[3] for o in refs)
+        if uu - {None, "PROBE-U"} or len(uu) != 1:
+            raise Refuse(f"row type {ty!r}: unexpected uuids on the created references: {refs!r}")
+        carries = uu == {"PROBE-U"}
+        if shape == 3 and carries:
+            raise Refuse("split_by_group puts the obj_id on the has_group case: not covered by the model (Uuid/Sheet.v)")
+        rows.append((ty, shape, atypes[0], bool(rec), carries))
+
+    def row(r):
+        return f"({coq_str(r[0])}, ({r[1]}%N, ({coq_str(r[2])}, ({'true' if r[3] else 'false'}, {'true' if r[4] else 'false'}))))"
+    out.append("Definition uuid_row_hooks : list (str * (N * (str * (bool * bool)))) := " + coq_list(row(r) for r in rows) + ".")
+
+    # insert_as_block: into which container does the nested FlowParser record?
+    import logging
+    from rpft.parsers.creation.contentindexparser import ContentIndexParser
+    from rpft.parsers.creation.tagmatcher import TagMatcher
+    from rpft.parsers.sheets import Sheet
+
+    class Mem:
+        name = "probe"
+
+        def __init__(self, sheets):
+            self._s = {n: Sheet(reader=self, name=n, table=t) for n, t in sheets.items()}
+
+        def get_sheets_by_name(self, name):
+            return [self._s[name]] if name in self._s else []
+    fh = ["row_id", "type", "from", "condition", "message_text", "obj_id"]
+    sheets = {
+        "content_index": _dataset(["type", "sheet_name"], [{"type": "template_definition", "sheet_name": "blk"},
+                                                            {"type": "create_flow", "sheet_name": "main"}]),
+        "blk": _dataset(fh, [{"row_id": "1", "type": "split_by_group", "from": "start", "message_text": "PROBE-N", "obj_id": "PROBE-U"},
+                             {"row_id": "2", "type": "send_message", "from": "1", "condition": "PROBE-N", "message_text": "x"}]),
+        "main": _dataset(fh, [{"row_id": "1", "type": "send_message", "from": "start", "message_text": "x"},
+                              {"row_id": "2", "type": "insert_as_block", "from": "1", "message_text": "blk"}]),
+    }
+    logging.disable(logging.CRITICAL)
+    try:
+        cont = ContentIndexParser(Mem(sheets), None, TagMatcher([])).parse_all()
+        gd = cont.uuid_dict.group_dict
+    except BaseException as e:
+        raise Refuse(f"probe workbook with an insert_as_block row does not compile: {type(e).__name__}: {e}")
+    finally:
+        logging.disable(logging.NOTSET)
+    if not isinstance(gd, dict) or gd.get("PROBE-N") not in (None, "PROBE-U"):
+        raise Refuse(f"probe of insert_as_block: unexpected group dictionary {gd!r}")
+    shared = gd.get("PROBE-N") == "PROBE-U"
+    hooks = dict((r[0], r) for r in rows)
+    if not hooks["split_by_group"][3]:
+        raise Refuse("split_by_group does not record its obj_id: the insert_as_block probe is not conclusive")
+    out.append(f"Definition uuid_block_shared : bool := {'true' if shared else 'false'}.")
+    notes.append(f"uuid_row_hooks / uuid_block_shared: probed on one-row sheets run through FlowParser with a spy container "
+                 f"({sum(1 for r in rows if r[1])} of {len(rows)} row types create references; insert_as_block "
+                 f"{'shares' if shared else 'does not share'} the container)")
+
+
+GENERATORS = [tables_uuid, tables_uuid_sheet]
